@@ -85,7 +85,7 @@ func hasField(T types.Type, name string) bool {
 		return false
 	}
 	for i := 0; i < st.NumFields(); i++ {
-		if st.Field(i).Name() == name {
+		if roleFieldName(T, st.Field(i).Name()) == name {
 			return true
 		}
 	}
@@ -654,68 +654,88 @@ func ruleBM25TopK(r *Run, rule string, k *textKind) {
 	kField := builderField(w, k.SearchT, "WithK")
 	kC := "P0." + kField
 	var allLo, allHi, pushLt, replaceGt bool
-	allInstrs(fn, func(in ssa.Instruction) {
-		bo, ok := in.(*ssa.BinOp)
-		if !ok {
-			return
+	// the selection may live in a package helper that is handed k (topKResults(scores, k)): scan it with k = its parameter
+	type scanT struct {
+		fn *ssa.Function
+		kC string
+	}
+	scans := []scanT{{fn, kC}}
+	for _, cs := range callsIn(fn, func(cc *ssa.CallCommon) bool { g := staticCallee(cc); return g != nil && g.Pkg == w.SPkg && g != fn }) {
+		g := staticCallee(cs.Common())
+		for j, a := range cs.Common().Args {
+			if c.S(a) == kC && callsNamed(g, "container/heap.Push", "container/heap.Pop") {
+				scans = append(scans, scanT{g, fmt.Sprintf("P%d", j)})
+				r.Analysed(w.Name(g))
+			}
 		}
-		cmp, neg, ok := normCmp(c, bo)
-		if !ok {
-			return
-		}
-		switch {
-		case !neg && cmp.Op == token.LEQ && cmp.L == kC && cmp.R == "c(0)":
-			allLo = true // k <= 0
-		case !neg && cmp.Op == token.LEQ && strings.HasPrefix(cmp.L, "len(make") && cmp.R == kC:
-			allHi = true // len(scores) <= k
-		case !neg && cmp.Op == token.LSS && strings.Contains(cmp.L, ".Len(") && cmp.R == kC:
-			pushLt = true // h.Len() < k
-		case !neg && (cmp.Op == token.LSS || cmp.Op == token.LEQ) && strings.HasSuffix(cmp.L, "[c(0)].Score") && strings.HasPrefix(cmp.R, "next("):
-			replaceGt = true // root < score
-		}
-	})
+	}
+	for _, sc := range scans {
+		kC := sc.kC
+		allInstrs(sc.fn, func(in ssa.Instruction) {
+			bo, ok := in.(*ssa.BinOp)
+			if !ok {
+				return
+			}
+			cmp, neg, ok := normCmp(c, bo)
+			if !ok {
+				return
+			}
+			switch {
+			case !neg && cmp.Op == token.LEQ && cmp.L == kC && cmp.R == "c(0)":
+				allLo = true // k <= 0
+			case !neg && cmp.Op == token.LEQ && strings.HasPrefix(cmp.L, "len(make") && cmp.R == kC:
+				allHi = true // len(scores) <= k
+			case !neg && cmp.Op == token.LSS && strings.Contains(cmp.L, ".Len(") && cmp.R == kC:
+				pushLt = true // h.Len() < k
+			case !neg && (cmp.Op == token.LSS || cmp.Op == token.LEQ) && strings.HasSuffix(cmp.L, "[c(0)].Score") && strings.HasPrefix(cmp.R, "next("):
+				replaceGt = true // root < score
+			}
+		})
+	}
 	r.Check(allLo && allHi, rule, "bm25:topk:all-branch", site, "all results ⇔ k ≤ 0 ∨ k ≥ |scores|", fmt.Sprintf("all-results branch condition not in the expected form (k≤0:%v, k≥n:%v)", allLo, allHi))
 	r.Check(pushLt, rule, "bm25:topk:push", site, "push while |heap| < k", "heap is not filled while |heap| < k")
 	r.Check(replaceGt, rule, "bm25:topk:replace", site, "replace the root ⇔ score > root (min-heap keeps the k best)", "root replacement is not `score > root`")
 	// extraction loops fill the output from the back
 	n := 0
-	allInstrs(fn, func(in ssa.Instruction) {
-		st, ok := in.(*ssa.Store)
-		if !ok {
-			return
-		}
-		ia, ok := st.Addr.(*ssa.IndexAddr)
-		if !ok {
-			return
-		}
-		ta, ok := st.Val.(*ssa.TypeAssert)
-		if !ok {
-			return
-		}
-		pop, ok := ta.X.(*ssa.Call)
-		if !ok || calleeName(pop.Common()) != "container/heap.Pop" {
-			return
-		}
-		n++
-		phi, ok := ia.Index.(*ssa.Phi)
-		back := false
-		if ok {
-			var init, step bool
-			for _, e := range phi.Edges {
-				if b, ok := e.(*ssa.BinOp); ok {
-					if b.Op == token.SUB && b.X == ssa.Value(phi) && c.S(b.Y) == "c(1)" {
-						step = true
-					}
-					if b.Op == token.SUB && strings.HasPrefix(c.S(b.X), "len(") && c.S(b.Y) == "c(1)" {
-						init = true
+	for _, sc := range scans {
+		allInstrs(sc.fn, func(in ssa.Instruction) {
+			st, ok := in.(*ssa.Store)
+			if !ok {
+				return
+			}
+			ia, ok := st.Addr.(*ssa.IndexAddr)
+			if !ok {
+				return
+			}
+			ta, ok := st.Val.(*ssa.TypeAssert)
+			if !ok {
+				return
+			}
+			pop, ok := ta.X.(*ssa.Call)
+			if !ok || calleeName(pop.Common()) != "container/heap.Pop" {
+				return
+			}
+			n++
+			phi, ok := ia.Index.(*ssa.Phi)
+			back := false
+			if ok {
+				var init, step bool
+				for _, e := range phi.Edges {
+					if b, ok := e.(*ssa.BinOp); ok {
+						if b.Op == token.SUB && b.X == ssa.Value(phi) && c.S(b.Y) == "c(1)" {
+							step = true
+						}
+						if b.Op == token.SUB && strings.HasPrefix(c.S(b.X), "len(") && c.S(b.Y) == "c(1)" {
+							init = true
+						}
 					}
 				}
+				back = init && step
 			}
-			back = init && step
-		}
-		r.Check(back, rule, fmt.Sprintf("bm25:topk:extract#%d", n), w.InstrPos(st)+" "+name, "min-heap is drained into the output back-to-front (descending order)",
-			"heap Pop results are not written back-to-front")
-	})
+			r.Check(back, rule, fmt.Sprintf("bm25:topk:extract#%d", n), w.InstrPos(st)+" "+name, "min-heap is drained into the output back-to-front (descending order)",
+				"heap Pop results are not written back-to-front")
+		})
+	}
 	if n < 2 {
 		r.add(rule, "bm25:topk:extract:floor", "-", fmt.Sprintf("%d heap extraction loops, floor is 2", n), Floor)
 	}
